@@ -1,4 +1,127 @@
-//! C20 driver (under construction)
-pub fn main(_args: &[String]) -> i32 {
-    2
+//! C20 driver: replays Filters cases (a tree of Lua files, apply/skip pattern lists at the top level and on each rule
+//! of a three-rule pipeline) into the real darklua_core::process over in-memory resources with an output directory.
+//!
+//! The pipeline is remove_comments, inject_global_value(CFG -> true), remove_empty_do; every file contains a comment
+//! marker, a read of CFG and an empty `do end`, so that each rule's effect is independently observable.
+//!
+//! A case: {id, files:[{s, segs}], top:{apply:{form, pats:[{s, segs}]}, skip:{..}}, rules:[{apply, skip} x3]}
+//! Observation (the case echoed, plus per file):
+//!   out      output text under the configuration of the case ("!missing" when nothing was written)
+//!   outdel   [3] output text under the same configuration with rule k DELETED from the pipeline
+//!   ref      [8] output text of the UNFILTERED pipeline made of the rules in mask m (bit k-1 = rule k), index m+1
+//! and errors/panic of the filtered run.
+use crate::util::{arg_value, guarded, read_ndjson, Out};
+use darklua_core::{Configuration, Options, Resources};
+use serde_json::{json, Value};
+use std::path::Path;
+
+fn q(s: &str) -> String {
+    format!("'{}'", s.replace('\\', "\\\\").replace('\'', "\\'"))
+}
+
+fn list_text(key: &str, l: &Value) -> String {
+    let pats: Vec<String> = l["pats"].as_array().map(|a| a.iter().map(|p| q(p["s"].as_str().unwrap_or(""))).collect()).unwrap_or_default();
+    match l["form"].as_str().unwrap_or("none") {
+        "one" => format!(", {}: {}", key, pats.first().cloned().unwrap_or_else(|| "''".into())),
+        "many" => format!(", {}: [{}]", key, pats.join(", ")),
+        _ => String::new(),
+    }
+}
+
+fn filters_text(fp: &Value) -> String {
+    format!("{}{}", list_text("apply_to_files", &fp["apply"]), list_text("skip_files", &fp["skip"]))
+}
+
+const RULE_HEADS: [&str; 3] = [
+    "rule: 'remove_comments'",
+    "rule: 'inject_global_value', identifier: 'CFG', value: true",
+    "rule: 'remove_empty_do'",
+];
+
+/// configuration text: the rules in `mask` (bit k = rule k+1), with the filters of the case when `filtered`
+pub fn config_text(case: &Value, mask: u8, filtered: bool) -> String {
+    let mut rules = Vec::new();
+    for k in 0..3 {
+        if mask & (1 << k) != 0 {
+            let f = if filtered { filters_text(&case["rules"][k]) } else { String::new() };
+            rules.push(format!("{{ {}{} }}", RULE_HEADS[k], f));
+        }
+    }
+    let top = if filtered { filters_text(&case["top"]) } else { String::new() };
+    format!("{{ rules: [{}]{} }}", rules.join(", "), top)
+}
+
+pub fn source_text(path: &str) -> String {
+    format!("-- C:{}\nlocal v = CFG\ndo end\nreturn v, '{}'\n", path, path)
+}
+
+struct Run {
+    outs: Vec<String>,
+    errors: String,
+    panic: String,
+}
+
+fn run(files: &[String], cfg_text: &str) -> Run {
+    let resources = Resources::from_memory();
+    for f in files {
+        resources.write(f, &source_text(f)).expect("write source");
+    }
+    let config: Configuration = match json5::from_str(cfg_text) {
+        Ok(c) => c,
+        Err(e) => return Run { outs: files.iter().map(|_| "!config".to_string()).collect(), errors: format!("!config:{}", e), panic: String::new() },
+    };
+    let r = guarded(|| darklua_core::process(&resources, Options::new(Path::new("src")).with_output("out").with_configuration(config)));
+    let mut errors = String::new();
+    let mut panic = String::new();
+    match r {
+        Err(p) => panic = p.chars().take(300).collect(),
+        Ok(Err(e)) => errors = format!("!error:{}", e),
+        Ok(Ok(tree)) => {
+            let mut es: Vec<String> = tree.collect_errors().iter().map(|e| e.to_string()).collect();
+            es.sort();
+            errors = es.join(" | ");
+        }
+    }
+    let outs = files
+        .iter()
+        .map(|f| resources.get(f.replacen("src/", "out/", 1)).unwrap_or_else(|_| "!missing".to_string()))
+        .collect();
+    Run { outs, errors, panic }
+}
+
+pub fn main(args: &[String]) -> i32 {
+    let cases = read_ndjson(arg_value(args, "--cases").expect("--cases"));
+    let mut out = Out::new(arg_value(args, "--out"));
+    // reference outputs depend on the tree only: cache them per tree
+    let mut ref_cache: std::collections::HashMap<String, Vec<Run>> = std::collections::HashMap::new();
+    for c in cases {
+        let files: Vec<String> = c["files"].as_array().unwrap().iter().map(|f| f["s"].as_str().unwrap().to_string()).collect();
+        let key = files.join("|");
+        if !ref_cache.contains_key(&key) {
+            let runs: Vec<Run> = (0u8..8).map(|m| run(&files, &config_text(&c, m, false))).collect();
+            ref_cache.insert(key.clone(), runs);
+        }
+        let text = config_text(&c, 7, true);
+        let main_run = run(&files, &text);
+        let del: Vec<Run> = (0..3).map(|k| run(&files, &config_text(&c, 7 & !(1u8 << k), true))).collect();
+        let refs = &ref_cache[&key];
+        let mut fobs = Vec::new();
+        for (i, f) in c["files"].as_array().unwrap().iter().enumerate() {
+            fobs.push(json!({
+                "s": f["s"], "segs": f["segs"],
+                "src": source_text(&files[i]),
+                "out": main_run.outs[i],
+                "outdel": del.iter().map(|r| r.outs[i].clone()).collect::<Vec<_>>(),
+                "ref": refs.iter().map(|r| r.outs[i].clone()).collect::<Vec<_>>(),
+            }));
+        }
+        let ref_errors: Vec<String> = refs.iter().map(|r| format!("{}{}", r.errors, r.panic)).filter(|s| !s.is_empty()).collect();
+        let del_errors: Vec<String> = del.iter().map(|r| format!("{}{}", r.errors, r.panic)).filter(|s| !s.is_empty()).collect();
+        out.emit(&json!({
+            "id": c["id"], "fam": c["fam"], "text": text, "top": c["top"], "rules": c["rules"], "files": fobs,
+            "errors": main_run.errors, "panic": main_run.panic, "ref_errors": ref_errors.join(" | "), "del_errors": del_errors.join(" | "),
+        }));
+    }
+    out.flush();
+    0
 }
